@@ -146,17 +146,18 @@ class FCFG(CFG):
 
     @classmethod
     def _read_line(cls, line, productions, terminals, variables):
-        structure_variables = {}
         head_s, body_s = line.split("->")
         head_text = head_s.strip()
         if is_special_text(head_text):
             head_text = head_text[5:-1]
         head_text, head_conditions = _split_text_conditions(head_text)
-        head_fs = FeatureStructure.from_text(head_conditions, structure_variables)
         head = Variable(head_text)
         variables.add(head)
-        all_body_fs = []
         for sub_body in body_s.split("|"):
+            # Each alternative is a production with its own features
+            structure_variables = {}
+            head_fs = FeatureStructure.from_text(head_conditions, structure_variables)
+            all_body_fs = []
             body = []
             for body_component in sub_body.split():
                 if is_special_text(body_component):
